@@ -37,6 +37,11 @@ class EventType(IntEnum):
     OTHER_HIGH_PRIORITY = auto()
 
 
+def _action_name(action):
+    # functools.partial objects (used by Maintainer) have no __name__.
+    return getattr(action, '__name__', None) or getattr(getattr(action, 'func', None), '__name__', str(action))
+
+
 class Event:
     '''Class used for scheduling actions within the simulation.
 
@@ -202,7 +207,7 @@ class Environment:
             print('Failed event:')
             print(f'  time:     {next_event.time}')
             print(f'  asset_id: {next_event.asset_id}')
-            print(f'  action:   {next_event.action.__name__}')
+            print(f'  action:   {_action_name(next_event.action)}')
             print(f'  event_type: {next_event.event_type}')
             print(f'  message: {next_event.message}')
             print(f'  status: {next_event.status}')
@@ -249,7 +254,7 @@ class Environment:
     def _trace_event(self, event):
         self._event_trace[self._event_index] = {'time': self.now,
                                                 'asset_id': event.asset_id,
-                                                'action': event.action.__name__,
+                                                'action': _action_name(event.action),
                                                 'message': event.message,
                                                 'event_type': event.event_type,
                                                 'status': event.status}
